@@ -1,8 +1,8 @@
 (* Flt/FltParseStruct.v -- the parser builds the tree the grammar denotes (C14), at the level of tokens:
      predicate  ::= [!] t1 .. tn                    (n <= 4 tokens, none of them ! ( ) && || ^)
      operand    ::= [!] ( body )
-     body       ::= predicate  |  operand K operand K .. K operand      (one conjunction keyword K, >= 2 operands)
-     expression ::= body  |  operand
+     body       ::= predicate  |  operand  |  operand K operand K .. K operand   (one conjunction keyword K, >= 2 operands)
+     expression ::= body
    For every such token sequence (any nesting depth, any number of operands) the parser's loop -- negation flag,
    recursion on "(", conjunction accumulation, the checks on ")" -- returns exactly the denoted filter:
    the predicate's filter (p_finish on its tokens), NOR around a negated operand, And/Or/Xor over the operands in
@@ -18,6 +18,7 @@ Definition structural (k : N) : bool :=
 
 Inductive body : Type :=
 | BLeaf (neg : bool) (ts : list ltok)
+| BOp (o : operand)                                   (* redundant parentheses: ((a == 1)), (!(a == 1)) *)
 | BConj (k : N) (o1 : operand) (os : olist)
 with operand : Type :=
 | OGroup (neg : bool) (b : body)
@@ -38,6 +39,7 @@ Definition neg_toks (neg : bool) : list ltok := if neg then [t_not] else [].
 Fixpoint toks_body (b : body) : list ltok :=
   match b with
   | BLeaf neg ts => neg_toks neg ++ ts
+  | BOp o => toks_op o
   | BConj k o1 os => toks_op o1 ++ toks_rest k os
   end
 with toks_op (o : operand) : list ltok :=
@@ -48,6 +50,7 @@ with toks_rest (k : N) (os : olist) : list ltok :=
 Fixpoint wf_body (b : body) : Prop :=
   match b with
   | BLeaf _ ts => Forall (fun t => structural (tk t) = false) ts /\ (length ts <= 4)%nat
+  | BOp o => wf_op o
   | BConj k o1 os => is_conj k = true /\ os <> ONil /\ wf_op o1 /\ wf_olist os
   end
 with wf_op (o : operand) : Prop := match o with OGroup _ b => wf_body b end
@@ -63,6 +66,7 @@ Section Struct.
   Fixpoint den_body (b : body) : res qfilter :=
     match b with
     | BLeaf neg ts => p_finish (mkP ts None None neg)
+    | BOp o => den_op o
     | BConj k o1 os =>
         bind (den_op o1) (fun f1 => bind (den_rest os) (fun fs => Ok (conj_filter k (f1 :: fs))))
     end
@@ -102,18 +106,17 @@ Section Struct.
     rewrite H1, H2, H3. unfold is_conj in H4. rewrite H4. reflexivity.
   Qed.
 
-  (* the end of a (sub)expression whose state is not "a lone parenthesised operand" *)
+  (* the end of a (sub)expression: ")" or the end of the tokens (an empty "()" is an error either way) *)
   Lemma step_end fuel term tl rest st :
     ending term tl rest ->
-    match p_sub st, p_conj st, p_toks st with Some _, None, [] => (term = []) | _, _, _ => True end ->
     p_loop (S fuel) (term, tl) st = bind (p_finish st) (fun f => Ok (f, (rest, tl))).
   Proof.
-    intros He Hs. destruct He as [rest tl|].
+    intros He. destruct He as [rest tl|].
     - cbn [FltParse.p_loop]. unfold snext. cbn [fst snd].
       change (tk t_rp =? c_LTOKEN_NOT) with false. change (tk t_rp =? c_LTOKEN_LPAREN) with false.
       change (tk t_rp =? c_LTOKEN_RPAREN) with true. cbv iota.
-      destruct (p_sub st); [|reflexivity]. destruct (p_conj st); [reflexivity|].
-      destruct (p_toks st); [discriminate Hs|reflexivity].
+      destruct st as [toks c sub neg]. cbn [p_sub p_conj p_toks].
+      destruct sub; [reflexivity|]. destruct c; [reflexivity|]. destruct toks; reflexivity.
     - reflexivity.
   Qed.
 
@@ -186,10 +189,17 @@ Section Struct.
       + destruct fuel as [|fuel]; [lia|]. unfold pst0. rewrite step_not. cbn [length Nat.eqb negb].
         destruct (fuel_split (length ts) fuel ltac:(lia)) as [f ->].
         rewrite run_words by (try assumption; cbn [length]; lia). cbn [app].
-        apply step_end; [exact He|]. cbn [p_sub]. exact I.
+        apply step_end. exact He.
       + destruct (fuel_split (length ts) fuel ltac:(lia)) as [f ->].
         unfold pst0. rewrite run_words by (try assumption; cbn [length]; lia). cbn [app].
-        apply step_end; [exact He|]. cbn [p_sub]. exact I.
+        apply step_end. exact He.
+    - (* BOp: a lone operand *)
+      intros o IHo Hw fuel term tl rest He Hlen. cbn [toks_body den_body wf_body] in *.
+      destruct (IHo Hw fuel term tl None Hlen) as [fuel' [Hf' Heq]].
+      unfold pst0. rewrite Heq. destruct o as [neg b]. cbn [den_op].
+      destruct (den_body b) as [f| | |]; cbn [bind]; try reflexivity.
+      destruct fuel' as [|f']; [destruct He; cbn [length] in Hf'; lia|].
+      rewrite (step_end f' term tl rest _ He). reflexivity.
     - (* BConj *)
       intros k o1 IH1 os IHos [Hk [Hne [Hw1 Hws]]] fuel term tl rest He Hlen. cbn [toks_body den_body] in *.
       rewrite <- app_assoc in *.
@@ -221,9 +231,8 @@ Section Struct.
       intros _ k fuel term tl rest c fprev negprev Hk Hc Hne He Hlen. cbn [toks_rest den_rest app bind].
       destruct fuel as [|fuel]; [lia|].
       rewrite (step_end fuel term tl rest _ He).
-      + destruct c as [[k0 kids]|]; [|destruct Hne; congruence].
-        cbn [conj_ok] in Hc. subst k0. rewrite finish_conj. reflexivity.
-      + cbn [p_sub p_conj p_toks]. destruct c; [exact I|destruct Hne; congruence].
+      destruct c as [[k0 kids]|]; [|destruct Hne; congruence].
+      cbn [conj_ok] in Hc. subst k0. rewrite finish_conj. reflexivity.
     - (* OCons *)
       intros o IHo t IHt [Hwo Hwt] k fuel term tl rest c fprev negprev Hk Hc _ He Hlen.
       cbn [toks_rest den_rest] in *.
@@ -255,12 +264,5 @@ Section Struct.
   Corollary parse_operand o :
     wf_op o ->
     p_loop (length (toks_op o) + 8) (toks_op o, None) pst0 = bind (den_op o) (fun f => Ok (f, ([], None))).
-  Proof.
-    intros H.
-    destruct (proj1 (proj2 parser_structure) o H (length (toks_op o) + 8)%nat [] None None) as [fuel' [Hf Heq]].
-    { rewrite app_nil_r. lia. }
-    rewrite app_nil_r in Heq. unfold pst0. rewrite Heq. destruct o as [neg b]. cbn [den_op].
-    destruct (den_body b) as [f| | |]; cbn [bind]; try reflexivity.
-    destruct fuel' as [|f']; [lia|]. reflexivity.
-  Qed.
+  Proof. intros H. apply (parse_body (BOp o)). exact H. Qed.
 End Struct.
